@@ -2488,9 +2488,13 @@ pub fn contract_pipeline_tag_matrix<C: Ctx>(cx: &mut C) {
         let header = ["EXPLICIT TAGS ", "IMPLICIT TAGS ", "AUTOMATIC TAGS ", ""][d];
         let kw = ["", "IMPLICIT ", "EXPLICIT "][k];
         let (class_src, class_out) = [("", "context"), ("APPLICATION ", "application"), ("PRIVATE ", "private"), ("UNIVERSAL ", "universal")][c];
-        let n = [3u32, 17, 5, 30][c];
+        let n = [[3u32, 17, 5, 30][c], 31, 200][cx.choose(3)];
+        // what else is written next to the tag: nothing, a constraint on the tagged type, OPTIONAL on the component
+        let decor = cx.choose(3);
+        if !cx.assume(decor != 1 || t == 0) { return; }
+        if !cx.assume(decor != 2 || (p == 1 || p == 2 || p == 4)) { return; }
         let ty = ["INTEGER", "RefSeq", "RefCh", "CHOICE { x BOOLEAN, y NULL }", "ANY"][t];
-        let tagged = format!("[{class_src}{n}] {kw}{ty}");
+        let tagged = format!("[{class_src}{n}] {kw}{ty}{}", ["", " (0..5)", " OPTIONAL"][decor]);
         let body = match p {
             0 => format!("T ::= {tagged}"),
             1 => format!("T ::= SEQUENCE {{ f {tagged}, g BOOLEAN }}"),
@@ -2828,9 +2832,11 @@ pub fn contract_pipeline_type_shapes<C: Ctx>(cx: &mut C, max_n: usize) {
         let nested = cx.any_bool();
         let n = 1 + cx.choose(max_n);
         // (source, Rust type with `{}` for the hoisted name, hoisted item's members)
-        let types: [(&str, &str, &[&str]); 9] = [
+        let types: [(&str, &str, &[&str]); 17] = [
             ("BOOLEAN", "bool", &[]), ("INTEGER", "Integer", &[]), ("OCTET STRING", "OctetString", &[]), ("Ref", "Ref", &[]),
             ("SEQUENCE OF BOOLEAN", "SequenceOf < bool >", &[]), ("SET OF Ref", "SetOf < Ref >", &[]),
+            ("NULL", "()", &[]), ("UTF8String", "Utf8String", &[]), ("BIT STRING", "BitString", &[]), ("OBJECT IDENTIFIER", "ObjectIdentifier", &[]),
+            ("INTEGER (0..255)", "u8", &[]), ("IA5String (SIZE(1..4))", "Ia5String", &[]), ("SEQUENCE OF Ref", "SequenceOf < Ref >", &[]), ("SET OF BOOLEAN", "SetOf < bool >", &[]),
             ("SEQUENCE { a BOOLEAN, b NULL OPTIONAL }", "{}", &["pub a : bool", "pub b : Option < () >"]),
             ("CHOICE { a BOOLEAN, b NULL }", "{}", &["a (bool)", "b (())"]),
             ("ENUMERATED { x, y }", "{}", &["x = 0", "y = 1"]),
@@ -2839,7 +2845,7 @@ pub fn contract_pipeline_type_shapes<C: Ctx>(cx: &mut C, max_n: usize) {
         let mut want: Vec<(String, String, usize, usize)> = vec![]; // field name, rust type, type index, optionality
         let holder = if nested { "TW" } else { "T" };
         for i in 0..n {
-            let ti = cx.choose(9);
+            let ti = cx.choose(17);
             let opt = if kind == 2 { 0 } else { cx.choose(3) };
             if !cx.assume(opt != 2 || ti < 2) { return; }
             let (src, rust, _) = types[ti];
